@@ -210,7 +210,7 @@ type c03argued struct {
 func (x *c03ctx) panicCondition(p *ssa.Panic) (inner []c03atom, atoms []c03atom) {
 	cls := x.e.factsAtBlock(p.Block())
 	if len(cls) > 0 {
-		inner = x.e.inlineInner(cls[0].atoms, 0)
+		inner = cls[0].atoms
 	}
 	for _, cl := range cls {
 		if len(cl.atoms) == 1 && cl.atoms[0].paramRooted() {
@@ -218,6 +218,30 @@ func (x *c03ctx) panicCondition(p *ssa.Panic) (inner []c03atom, atoms []c03atom)
 		}
 	}
 	return inner, atoms
+}
+
+// k1desc names the guard of a panic in owner. A guard that is the result of a helper (`t, ok := classify(x)`,
+// `if !known(x)`) may have been reviewed under the branch fact the helper decides it by (the guard as it reads when the
+// helper is inlined): that name is used when a reviewed entry of owner carries it and none carries the literal one.
+func (x *c03ctx) k1desc(owner *ssa.Function, inner []c03atom) string {
+	raw := c03descOf(inner)
+	inl := c03descOf(x.e.inlineInner(inner, 0))
+	if inl == raw {
+		return raw
+	}
+	has := func(desc string) bool {
+		prefix := core.FuncKey(owner) + ": panic when " + desc + " <- "
+		for k := range c03reviewedK1 {
+			if strings.HasPrefix(k, prefix) {
+				return true
+			}
+		}
+		return false
+	}
+	if !has(raw) && has(inl) {
+		return inl
+	}
+	return raw
 }
 
 func c03descOf(inner []c03atom) string {
@@ -236,7 +260,7 @@ func c03descOf(inner []c03atom) string {
 // containing the panic or, after lifting through single-caller unexported helpers, one of its transitive callers;
 // inner/atoms are expressed in owner's frame; s is a call site of owner.
 func (x *c03ctx) k1pair(owner *ssa.Function, inner, atoms []c03atom, stab []ssa.Instruction, p *ssa.Panic, s ssa.CallInstruction, depth int) bool {
-	base := core.FuncKey(owner) + ": panic when " + c03descOf(inner)
+	base := core.FuncKey(owner) + ": panic when " + x.k1desc(owner, inner)
 	key := base + " <- " + core.FuncKey(s.Parent())
 	args := x.e.siteArgs(s, owner)
 	proved := ""
@@ -403,7 +427,7 @@ func (x *c03ctx) runK1() {
 					continue
 				}
 				inner, atoms := x.panicCondition(p)
-				base := core.FuncKey(f) + ": panic when " + c03descOf(inner)
+				base := core.FuncKey(f) + ": panic when " + x.k1desc(f, inner)
 				sites := x.e.callers[f]
 				if len(sites) == 0 {
 					x.settle("K1", base+" <- (no static caller)", p, c03reviewedK1, "explicit panic in reachable code whose callers cannot be enumerated")
